@@ -529,6 +529,28 @@ fn exhaustive_batches(max_len: usize) -> Vec<Vec<u8>> {
 	out
 }
 
+/// One batch on a fresh WebSocket connection: every frame until idle, then a sentinel call.
+async fn ws_batch_probe(mut ws: jrv::memsrv::RawWs, log: &Log, bytes: &[u8], sid: &str) -> Obs {
+	let _ = log.take();
+	let sent = ws.send_bytes(bytes).await;
+	let first = ws.drain_until_idle(IDLE).await;
+	let sent2 = ws.send_text(&format!("{{\"jsonrpc\":\"2.0\",\"id\":\"{sid}\",\"method\":\"sentinel\"}}")).await;
+	let second = ws.drain_until_idle(IDLE).await;
+	let mut frames = Vec::new();
+	let mut sentinel_ok = false;
+	for f in first.into_iter().chain(second.into_iter()) {
+		if !sentinel_ok && f.json().map(|v| v["id"] == Value::String(sid.to_string())).unwrap_or(false) {
+			sentinel_ok = true;
+		} else {
+			frames.push(f.data);
+		}
+	}
+	let inv = log.take();
+	let o = Obs { frames, invocations: inv, sentinel_ok, conn_dead: ws.is_ended() || sent.is_err() || sent2.is_err(), http_status: None };
+	ws.close().await;
+	o
+}
+
 fn run_job(job_id: u64, batches: Vec<Vec<u8>>, seed: u64) -> (Evidence, Vec<Violation>) {
 	let mut ev = Evidence::new("");
 	let mut violations = Vec::new();
@@ -536,6 +558,14 @@ fn run_job(job_id: u64, batches: Vec<Vec<u8>>, seed: u64) -> (Evidence, Vec<Viol
 	block_on_virtual(async {
 		// one server per configuration for this job
 		let servers: Vec<(Cfg, MemServer, Log)> = CFGS.iter().map(|c| { let (s, l) = server(*c); (*c, s, l) }).collect();
+		let lows: Vec<(jrv::lowlevel::LowLevel, Log)> = CFGS
+			.iter()
+			.map(|c| {
+				let log = Log::default();
+				let cfg = ServerConfig::builder().max_connections(1000).set_batch_request_config(c.to_lib()).build();
+				(jrv::lowlevel::LowLevel::new(cfg, handlers::echo_module(log.clone())), log)
+			})
+			.collect();
 		for (bi, bytes) in batches.iter().enumerate() {
 			// every batch under 2 seeded configurations (the exhaustive job: all configurations)
 			let cfg_ix: Vec<usize> = if batches.len() <= 64 && job_id >= 1_000_000 { (0..CFGS.len()).collect() } else {
@@ -556,27 +586,22 @@ fn run_job(job_id: u64, batches: Vec<Vec<u8>>, seed: u64) -> (Evidence, Vec<Viol
 				let h = Obs { frames, invocations: inv, sentinel_ok: true, conn_dead: false, http_status: Some(rep.status) };
 				violations.extend(judge(bytes, *cfg, "http", &h));
 				// WS (fresh connection per batch: a subscribe entry leaves a subscription behind)
-				let mut ws = srv.ws().await.expect("ws");
-				let _ = log.take();
-				let sent = ws.send_bytes(bytes).await;
-				let first = ws.drain_until_idle(IDLE).await;
-				let sid = format!("sentinel-{job_id}-{bi}");
-				let sent2 = ws.send_text(&format!("{{\"jsonrpc\":\"2.0\",\"id\":\"{sid}\",\"method\":\"sentinel\"}}")).await;
-				let second = ws.drain_until_idle(IDLE).await;
-				let mut frames = Vec::new();
-				let mut sentinel_ok = false;
-				for f in first.into_iter().chain(second.into_iter()) {
-					if !sentinel_ok && f.json().map(|v| v["id"] == Value::String(sid.clone())).unwrap_or(false) {
-						sentinel_ok = true;
-					} else {
-						frames.push(f.data);
+				let ws = srv.ws().await.expect("ws");
+				let w = ws_batch_probe(ws, log, bytes, &format!("sentinel-{job_id}-{bi}")).await;
+				violations.extend(judge(bytes, *cfg, "ws", &w));
+				// the same batch through the low-level assembly (`ws::connect`), every third time
+				if r.chance(1, 3) {
+					let (low, low_log) = &lows[ci];
+					if let Ok(lws) = low.ws().await {
+						let lw = ws_batch_probe(lws, low_log, bytes, &format!("sentinel-low-{job_id}-{bi}")).await;
+						let mut vs = judge(bytes, *cfg, "ws", &lw);
+						for v in vs.iter_mut() {
+							v.witness["entry_point"] = json!("low-level ws::connect");
+						}
+						violations.extend(vs);
+						ev.count("ws_connect_batches", 1);
 					}
 				}
-				let inv = log.take();
-				let w = Obs { frames, invocations: inv, sentinel_ok, conn_dead: ws.is_ended() || sent.is_err() || sent2.is_err(), http_status: None };
-				violations.extend(judge(bytes, *cfg, "ws", &w));
-				ws.close().await;
-				drop(ws);
 
 				// "entry alone" differential over HTTP for call entries with ids unique within the batch
 				if let BatchWant::Array(wants) = &want_http {
